@@ -110,6 +110,40 @@ theorem C22_validators_tied :
     Arc.Generated.C22.rbacPatternMaxLen = 256 ∧ Arc.Generated.C22.rbacDescriptionMaxLen = 1024 := by
   decide
 
+/-- **C22_snapshot_isolated_tied.** `Snapshot()` copies every one of the eight primary maps entry by
+entry BY VALUE (`c := *v; m[k] = &c`; regenerated fact per map) — never by reusing the live pointer.
+That is what makes the model's `snapshot` (a pure value) right even though several apply functions
+mutate entries in place: commands applied between `Snapshot()` and `Persist()` cannot leak into the
+persisted snapshot (harness: `hold k … held k`, monitor `snapshot-not-isolated:*`). -/
+theorem C22_snapshot_isolated_tied :
+    Arc.Generated.C22.snapshotCopies =
+      [("nodes", true), ("files", true), ("tokens", true), ("organizations", true), ("teams", true),
+       ("roles", true), ("measurementPermissions", true), ("tokenMemberships", true)] := by decide
+
+/-- the length function and limit a (function, argument) check uses in the current source -/
+def lenOf (f arg : String) : Option (String × String) :=
+  (Arc.Generated.C22.lengthChecks.find? (fun c => c.1 == f && c.2.1 == arg)).map (fun c => c.2.2)
+
+/-- every name/pattern/description check on an UPDATE path, paired with the check `Restore` (and
+Create) applies to the same field through `validate*Entry` -/
+def updateRestorePairs : List ((String × String) × (String × String)) := [
+  (("applyUpdateToken", "p.Name"), ("validateTokenEntry", "entry.Name")),
+  (("applyUpdateOrganization", "p.Name"), ("validateOrganizationEntry", "entry.Name")),
+  (("applyUpdateOrganization", "p.Description"), ("validateOrganizationEntry", "entry.Description")),
+  (("applyUpdateTeam", "p.Name"), ("validateTeamEntry", "entry.Name")),
+  (("applyUpdateTeam", "p.Description"), ("validateTeamEntry", "entry.Description")),
+  (("applyUpdateRole", "p.DatabasePattern"), ("validateRoleEntry", "entry.DatabasePattern"))]
+
+/-- **C22_length_checks_tied.** Every length test in the validators and in the update paths measures
+BYTES (`len`, what the model's `blen` is) — none uses a rune count — and each update-path test uses
+exactly the length function and the limit of the `validate*Entry` test that `Restore` re-applies to
+the same field: whatever an update accepts, a restore keeps. (Regenerated from `/repo`; counting runes
+on one side only flips this.) -/
+theorem C22_length_checks_tied :
+    (∀ c ∈ Arc.Generated.C22.lengthChecks, c.2.2.1 = "len") ∧
+    (∀ pr ∈ updateRestorePairs, (lenOf pr.1.1 pr.1.2).isSome = true ∧ lenOf pr.1.1 pr.1.2 = lenOf pr.2.1 pr.2.2) ∧
+    Arc.Generated.C22.lengthChecks.length = 16 := by decide
+
 /-! ## determinism -/
 
 /-- **C22_deterministic.** Two nodes that start from the same state and apply the same committed
